@@ -10,6 +10,7 @@ import (
 	"encoding/base64"
 	"errors"
 	"fmt"
+	"math"
 	"slices"
 	"strings"
 	"testing"
@@ -160,6 +161,8 @@ type c17Env struct {
 	ss *ServerSession
 }
 
+var c17PageSizes = []int{1, 2, 3, 4, 5, 6, math.MaxInt}
+
 var c17Sessions = map[string]*c17Env{} // one long-lived session per (kind, page size): states reached from elsewhere, not only from the initial state
 
 func c17Session(kind string, pageSize int) (*c17Env, error) {
@@ -198,7 +201,8 @@ func c17Traversal(ch *verifx.Chooser) (obs, bad, sig string, steps int) {
 	ctx := context.Background()
 	kinds := c17Kinds()
 	kind := kinds[ch.Free("kind", len(kinds))]
-	pageSize := 1 + ch.Free("page-size", 3)
+	// page sizes: small ones, the number of items (5) and its neighbours, and the largest value the option admits
+	pageSize := c17PageSizes[ch.Free("page-size", len(c17PageSizes))]
 	subset := ch.Free("initial-subset", 32)
 	env, err := c17Session(kind.name, pageSize)
 	if err != nil {
